@@ -764,3 +764,124 @@ Section Store.
     apply invalidate_noop. auto.
   Qed.
 End Store.
+
+(* ------------------------------------------------------------------ *)
+(** * Whole operations *)
+Lemma exec_S ct f k : exec ct (S f) k = body ct (exec ct f) k.
+Proof. reflexivity. Qed.
+
+Lemma bind_ret_l {A B} (a : A) (k : A -> M B) s : bind (ret a) k s = k a s.
+Proof. reflexivity. Qed.
+
+Lemma T_run_then {A B} (P : heap_t -> Prop) (m : M A) (Q : A -> heap_t -> Prop) (E R : heap_t -> Prop) (x : B) s :
+  T P m Q E -> P (heap s) -> (forall a h, Q a h -> R h) -> (forall h, E h -> R h) ->
+  R (heap (snd ((m ;;; ret x) s))).
+Proof.
+  intros H Ps HQ HE. unfold bind. specialize (H s Ps). destruct (m s) as [[a|e] s1]; simpl; eauto.
+Qed.
+
+Lemma T_run {A} (P : heap_t -> Prop) (m : M A) (Q : A -> heap_t -> Prop) (E R : heap_t -> Prop) s :
+  T P m Q E -> P (heap s) -> (forall a h, Q a h -> R h) -> (forall h, E h -> R h) ->
+  R (heap (snd (m s))).
+Proof.
+  intros H Ps HQ HE. specialize (H s Ps). destruct (m s) as [[a|e] s1]; simpl; eauto.
+Qed.
+
+Section Ops.
+  Variable ct : ctable.
+  Hypothesis Hflat : flat_table ct.
+  Hypothesis Hninv : no_inval_table ct.
+  Notation Inv := (Inv ct).
+
+  (* attribute a of the instance at l, if it is managed, is a leaf list attribute *)
+  Definition recv_leaf (l : loc) (a : aid) (h : heap_t) : Prop :=
+    forall cl d k sp, nth_error h l = Some (OInst cl d) -> lookup_cls ct cl = Some k ->
+      lookup_attr k a = Some sp -> exists e, leaf_list sp e.
+
+  Lemma Hmv fuel : forall m F, astable F -> mv_plain m ->
+    T (IF ct F) (exec ct fuel (KMutateValue m)) (fun r h => IF ct F h /\ mv_res m r h) (IF ct F).
+  Proof. intros. apply exec_mv_quiet; auto. Qed.
+
+  Lemma IF_true h : Inv h -> IF ct (fun _ => True) h.
+  Proof. intro H. split; auto. Qed.
+
+  (* obj.a = v, after the value has been prepared: shared by assignment and with_<a> *)
+  Lemma prepare_then_store rec' fuel l a sp e v :
+    leaf_list sp e ->
+    T (fun h => Inv h /\ loose h v)
+      (value <- prepare_attr_value ct (exec ct fuel) sp l v None ;;
+       mutate_attr ct rec' l a value true true false false)
+      (fun _ h => Inv h) Inv.
+  Proof.
+    intro Hl. eapply T_bind.
+    - eapply T_conseq; [apply (prepare_attr_value_seq ct Hflat (exec ct fuel) (Hmv fuel) sp e l v (fun _ => True) Hl cstable_true)| | |].
+      + intros h [I L]. split; [apply IF_true; exact I|exact L].
+      + intros r h H. exact H.
+      + intros h [I _]. exact I.
+    - intros value. eapply T_pre; [|apply (mutate_attr_inplace ct Hflat Hninv rec' l a value true)].
+      intros h [[I _] L]. split; auto. split; [left; exact L|discriminate].
+  Qed.
+
+  Lemma setattr_Inv fuel l a v :
+    T (fun h => Inv h /\ loose h v /\ recv_leaf l a h)
+      (setattr_ ct (exec ct fuel) l a v false false) (fun _ h => Inv h) Inv.
+  Proof.
+    unfold setattr_.
+    eapply T_bind; [apply T_read_inst; tauto|]. intros [cl d]. cbn [fst snd].
+    eapply T_bind; [apply T_cls_of; tauto|]. intros k.
+    intros s [[[I [L R]] N] Hk].
+    destruct (lookup_attr k a) as [sp|] eqn:Ha.
+    - destruct (R _ _ _ _ N Hk Ha) as [e Hl].
+      apply (prepare_then_store (exec ct fuel) fuel l a sp e v Hl s). auto.
+    - rewrite bind_ret_l.
+      apply (mutate_attr_inplace ct Hflat Hninv (exec ct fuel) l a v true s).
+      split; auto. split; [left; exact L|discriminate].
+  Qed.
+
+  Lemma exec_setattr_Inv fuel l a v :
+    T (fun h => Inv h /\ loose h v /\ recv_leaf l a h)
+      (exec ct fuel (KSetAttr l a v false false)) (fun _ h => Inv h) Inv.
+  Proof.
+    destruct fuel as [|f]; [apply T_fail; tauto|]. rewrite exec_S. apply setattr_Inv.
+  Qed.
+
+  (* STEP 2a: obj.a = v on a leaf list attribute, v not referenced by anybody *)
+  Theorem step_setattr_Inv roots x a v s :
+    Inv (heap s) -> loose (heap s) v ->
+    (forall l, nth x roots VNone = VRef l -> recv_leaf l a (heap s)) ->
+    Inv (heap (snd (step ct roots (OpSetAttr x a v) s))).
+  Proof.
+    intros I L R. unfold step.
+    destruct (nth x roots VNone) as [| | | | | | | |l] eqn:Er; try exact I.
+    cbn [loc_of]. rewrite bind_ret_l.
+    eapply T_run_then; [apply (exec_setattr_Inv XFUEL l a v)| | |]; auto.
+    cbv beta. split; auto.
+  Qed.
+
+  Lemma lookup_attr_name k a sp : lookup_attr k a = Some sp -> a_name sp = a.
+  Proof. unfold lookup_attr. intro H. apply find_some in H. destruct H as [_ H]. now apply Nat.eqb_eq. Qed.
+
+  (* STEP 2b: obj.with_<a>(v, _inplace=True) *)
+  Theorem step_with_inplace_Inv roots x a hh s :
+    Inv (heap s) -> loose (heap s) (pos0 hh) -> h_inplace hh = true -> h_kw hh = None ->
+    (forall l, nth x roots VNone = VRef l -> recv_leaf l a (heap s)) ->
+    Inv (heap (snd (step ct roots (OpHelper x (HWith a) hh) s))).
+  Proof.
+    intros I L Hin Hkw R. unfold step.
+    destruct (nth x roots VNone) as [| | | | | | | |l] eqn:Er; try exact I.
+    cbn [loc_of]. rewrite bind_ret_l. specialize (R l eq_refl).
+    unfold run_helper. destruct (negb (h_if hh)); [exact I|]. rewrite Hin, Hkw.
+    eapply T_run with (P := fun h => Inv h /\ loose h (pos0 hh) /\ recv_leaf l a h) (Q := fun _ h => Inv h) (E := Inv);
+      auto.
+    unfold spec_for.
+    eapply T_bind.
+    { eapply T_bind; [apply T_read_inst; tauto|]. intros [cl d]. cbn [fst snd].
+      eapply T_bind; [apply T_cls_of; tauto|]. intros k.
+      instantiate (1 := fun r h => (Inv h /\ loose h (pos0 hh)) /\ a_name (snd r) = a /\ exists e, leaf_list (snd r) e).
+      intros s0 [[[I0 [L0 R0]] N] Hk].
+      destruct (lookup_attr k a) as [sp|] eqn:Ha; simpl; auto.
+      split; auto. split; [eapply lookup_attr_name; eauto|eauto]. }
+    intros r. apply T_pull. intros [Hn [e Hl]]. unfold with_attr. rewrite Hn.
+    apply (prepare_then_store (exec ct XFUEL) XFUEL l a (snd r) e (pos0 hh) Hl).
+  Qed.
+End Ops.
